@@ -262,6 +262,30 @@ func (c *ctx) history(name band.Name, nops int) error {
 		return err
 	}
 	c.emit(M{"ev": "reset", "bname": b.Name(), "proj": proj})
+	if c.rnd.Intn(2) == 0 && len(chans) > 0 {
+		// the very first operation on a fresh band is a valid Disable (then Enable) of a default channel: nothing was
+		// added or re-allocated yet, the tables are exactly as the constructor left them
+		i := c.rnd.Intn(len(chans))
+		for _, opn := range []string{"disable", "enable"} {
+			op := opn
+			ev := M{"ev": "op", "bname": b.Name(), "op": op, "i": i}
+			ev["code"] = codeErr(func() error {
+				if op == "disable" {
+					return b.DisableUplinkChannelIndex(i)
+				}
+				return b.EnableUplinkChannelIndex(i)
+			})
+			if proj, chans, err = planProjection(b); err != nil {
+				return err
+			}
+			ev["proj"] = proj
+			ev["lookups"] = lookupEvents(c, b, chans)
+			c.emit(ev)
+			if c.rnd.Intn(2) == 0 {
+				break
+			}
+		}
+	}
 	if len(chans) > 16 && c.rnd.Intn(3) == 0 {
 		// one or two whole 16-channel blocks switched off (a network that does not listen there): the channel-mask CFList then
 		// has an all-zero mask BETWEEN non-zero ones
